@@ -40,6 +40,11 @@ def build_pools(ck, tier, rnd, langs=gen.LANGS, tag="x"):
             if nfd != t:
                 ts.append(nfd)
                 ts.append("".join(unicodedata.normalize("NFD", ch) if rnd.random() < 0.5 else ch for ch in t))
+        # accented special titles (also letters foreign to the language: café in a German catalogue) in NFD as well
+        for t in gen.SPECIAL_TITLES:
+            nfd = unicodedata.normalize("NFD", t)
+            if nfd != t:
+                ts += [nfd, nfd + " bar"]
         tab = gen.LANGTAB[lang]
         rows = [a for a, b in tab["reduce"]] + [b for a, b in tab["compose"]]
         for a in rnd.sample(rows, min(len(rows), 10)):
@@ -728,6 +733,7 @@ def plan_components(prop, tier, seed, t0):
             cases += gen.gen_table_cases(lang, rnd)
     if prop in ("C16", "C19"):
         cases += gen.gen_dl_cases(rnd, tier)
+        cases += gen.gen_wm_long_cases(rnd, tier)
     if prop in ("C17", "C19"):
         cases += gen.gen_jac_cases(rnd, tier)
         cases += gen.gen_gate_cases(rnd, tier)
